@@ -220,6 +220,23 @@ func (Prop) Generate(r *fw.Rand, tier string) []fw.Case {
 		p := writeReq(k)
 		cases = append(cases, fw.Case{Ops: []string{"conn " + hx(frame(1, int64(len(p)), p)), "ping"}, Tags: []string{fmt.Sprintf("write-kind-%d", k)}})
 	}
+	// well-formed requests of every type (fixed stream of variants, independent of the seed)
+	er := fw.NewRand(15)
+	ne := 240
+	if tier == "thorough" {
+		ne = 4000
+	}
+	for i := 0; i < ne; i += 8 {
+		var ops []string
+		var tags []string
+		for k := 0; k < 8; k++ {
+			et, ep, tag := genEnvelope(er)
+			ops = append(ops, "conn "+hx(frame(byte(et), int64(len(ep)), ep)))
+			tags = append(tags, tag)
+		}
+		ops = append(ops, "ping")
+		cases = append(cases, fw.Case{Ops: ops, Tags: tags})
+	}
 	for i := 0; i < n; i++ {
 		var ops []string
 		var tags []string
@@ -508,6 +525,15 @@ func (Prop) Oracle(c fw.Case, out []string) fw.Verdict {
 			return fw.Verdict{OK: false, Why: fmt.Sprintf("the node process died after %.200s", op), Signature: "node crashed by " + classify(f)}
 		case strings.Contains(o, "MALFORMED-ACCEPTED"):
 			return fw.Verdict{OK: false, Why: fmt.Sprintf("%.200s: a request that does not decode was answered with success: %s", op, o), Signature: "malformed request answered with success: " + classify(f)}
+		case f[0] == "lv" && strings.HasPrefix(o, "ok"):
+			// ReadLV may only succeed when the announced number of bytes was really there
+			b := unhx(f[1])
+			if len(b) >= 8 {
+				sz := int64(binary.BigEndian.Uint64(b[:8]))
+				if sz < 0 || sz > int64(len(b)-8) {
+					return fw.Verdict{OK: false, Why: fmt.Sprintf("ReadLV accepted a frame announcing %d bytes with %d present: %s", sz, len(b)-8, o), Signature: "ReadLV accepts a truncated or negative-length frame"}
+				}
+			}
 		case o == "panic":
 			return fw.Verdict{OK: false, Why: fmt.Sprintf("%.200s panics", op), Signature: "panic in " + f[0]}
 		case f[0] == "ping" && o != "replies 2":
